@@ -73,6 +73,30 @@ pub fn fuse_op(k: usize) -> FuseOp {
     }
 }
 
+/// `==` of two opinions / simplexes (derived PartialEq; labelled arrays delegate to their cells):
+/// overall results, then the scalar `==` of every cell pair (b.., u, a..)
+pub fn eqv<T, V>(x: &[V]) -> Out<V>
+where
+    T: Tab<V> + PartialEq,
+    V: Vf,
+{
+    let mut r = Rd::new(x);
+    let w1: Opinion<T, V> = r.opinion();
+    let w2: Opinion<T, V> = r.opinion();
+    let f = |b: bool| if b { V::one() } else { V::zero() };
+    let mut v = vec![
+        f(w1 == w2), f(w2 == w1), f(w1 == w1),
+        f(w1.simplex == w2.simplex), f(w2.simplex == w1.simplex),
+        f(w1.base_rate == w2.base_rate),
+    ];
+    let (a, b) = (fl(&w1.simplex.belief), fl(&w2.simplex.belief));
+    v.extend(a.iter().zip(&b).map(|(p, q)| f(p == q)));
+    v.push(f(w1.simplex.uncertainty == w2.simplex.uncertainty));
+    let (a, b) = (fl(&w1.base_rate), fl(&w2.base_rate));
+    v.extend(a.iter().zip(&b).map(|(p, q)| f(p == q)));
+    Out::Ok(v)
+}
+
 // ------------------------------------------------------------ unary operators
 
 pub fn proj<T, Idx, V>(style: &str, x: &[V]) -> Out<V>
